@@ -122,5 +122,6 @@ def check_c09(ctx):
         "attribute strings: every string over {quote, backslash, newline, tab, colon, space, non-ASCII letter, brace, letter} up to length 2 (quick) / 3 "
         "(thorough) plus key-like shapes, written at every attribute position of a template with collectors, mixins, views, events and REST endpoints, "
         "and as the attribute values of TLC-generated programs; a source the compiler rejects contributes nothing",
+        "after its five encodings every model compiled in-process is edited in place (a longer name, a new attribute) and written as binary again: the second artefact decodes to the edited model",
         "every third model is written to files that already hold the artefact of an earlier, larger model (the model plus one application): Prior in Codec.tla",
     ])
